@@ -483,7 +483,8 @@ func check(c Case) *vfrun.Failure {
 
 // damage turns a valid request into a rejected one, by construction.
 func damage(t *rapid.T, r Request) Request {
-	kind := rapid.SampledFrom([]string{"parse", "unknown-field", "unknown-operation", "missing-argument", "variable-type", "fragment-cycle", "undefined-variable", "required-variable-missing", "required-variable-missing", "required-variable-null"}).Draw(t, "damage")
+	kind := rapid.SampledFrom([]string{"parse", "unknown-field", "unknown-operation", "missing-argument", "variable-type", "fragment-cycle", "undefined-variable", "required-variable-missing", "required-variable-missing", "required-variable-null",
+		"unknown-argument", "unknown-directive-argument", "unknown-type", "wrong-literal", "unknown-directive", "duplicate-operation-name"}).Draw(t, "damage")
 	r.Invalid = kind
 	switch kind {
 	case "parse":
@@ -498,6 +499,20 @@ func damage(t *rapid.T, r Request) Request {
 	case "variable-type":
 		r.Query, r.OpName = "query($n: Int!) { echo(n: $n) }", ""
 		r.Variables = map[string]any{"n": "not a number"}
+	case "unknown-argument":
+		// every class of validation error that can carry a "Did you mean" suggestion has its own rule;
+		// a server with suggestions disabled swaps those rules and must still reject all of them
+		r.Query, r.OpName, r.Variables = "{ echo(n: 1, nosuchargument: 2) }", "", nil
+	case "unknown-directive-argument":
+		r.Query, r.OpName, r.Variables = "{ s @include(if: true, unless: false) }", "", nil
+	case "unknown-type":
+		r.Query, r.OpName, r.Variables = "{ a { ... on NoSuchType { id } } }", "", nil
+	case "wrong-literal":
+		r.Query, r.OpName, r.Variables = "{ echo(n: \"seven\", e: NOSUCHVALUE) }", "", nil
+	case "unknown-directive":
+		r.Query, r.OpName, r.Variables = "{ s @nosuchdirective }", "", nil
+	case "duplicate-operation-name":
+		r.Query, r.OpName, r.Variables = "query A { s } query A { i }", "A", nil
 	case "required-variable-missing":
 		// the same operation a valid request of the pool uses, with no variables member at all
 		r.Query, r.OpName, r.Variables = "query($n: Int!) { echo(n: $n) }", "", nil
